@@ -562,3 +562,19 @@ package server
 //@   ensures [an-unknown-task-is-never-removed] !old(req.TaskID in e.cdcTasks.data) ==> deleteCalls == old(deleteCalls) && (err == nil) == old(req.IgnoreNotFound)
 //@   ensures [a-known-task-is-removed-exactly-once] old(req.TaskID in e.cdcTasks.data) ==> deleteCalls == old(deleteCalls) + 1
 //@   ensures [delete-neither-pauses-nor-starts] pauseCalls == old(pauseCalls) && startCalls == old(startCalls)
+
+// ---- C14 / C05: the receive loop of a downstream channel flushes its batcher on every way out -----------------------
+// startReplicateDMLMsg$1 is the goroutine that feeds the packs of one downstream channel into a batcher.  However it
+// ends (context closed, task no longer running, invalid pack, callback failure), the deferred final flush has handed
+// everything still buffered to the write callback: nothing stays behind in the batcher.
+//@ func (*MetaCDC).startReplicateDMLMsg$1
+//@   props C14 C05
+//@   requires deref(e) != nil && deref(e).config != nil && deref(entity) != nil && deref(entity).channelManager != nil
+//@   assumes myShare == 0
+//@   trustpre pauseTaskWithReason WithLabelValues Receive.2
+//@   opaque isRunningTask
+//@   private msgpacker.Packer.* arrays(*api.ReplicateMsg) arrays(msgpacker.PackerChecker) msgpacker.TimerChecker.* msgpacker.MsgCountChecker.* msgpacker.MemoryProtector.* myShare othersShare addOver delivered hret
+// calls through function values in this goroutine: the dry-run pack viewer (the write callback is called by the batcher)
+//@   dyncall modifies nothing
+//@   ensures [nothing-stays-buffered-when-the-loop-ends] reached(NewPacker) ==> len(local(packer).msgs) == 0 && local(packer).currentMsgPackSize == 0
+//@   loop 1 invariant wfPacker(packer)
